@@ -12,8 +12,14 @@
 (*                 frozen: {} Cartesian, {1,2} polar and cylindrical,      *)
 (*                 {1,2,3} spherical (1-based positions of the position    *)
 (*                 vector)                                                 *)
-(*   Bounds        radius >= 0, width >= 0, amplitudes in [-1, 1]; with    *)
-(*                 adjust_values two more parameters (vmin, vrng)          *)
+(*   Region        ... ; a region without any support point ends the call *)
+(*                 at once (NoSupport): the candidate is only wrapped      *)
+(*   Bounds        radius >= 0, width >= 0, amplitudes in [-1, 1]          *)
+(*   Levels        unset levels become the extreme values of the region;   *)
+(*                 with adjust_values AND a non-zero intensity range two   *)
+(*                 more parameters (vmin in [vmin-vrng, vmax], vrng in     *)
+(*                 [0, 3 vrng]) are appended; a homogeneous region (range  *)
+(*                 zero) keeps the intensities fixed                       *)
 (*   Solve         ANY step with x' inside the bounds and Cost' <= Cost    *)
 (*   WriteBack, Wrap (position normalised on periodic axes), Return        *)
 (* Parameter vector (1-based): position 1..d, radius d+1, width d+2,       *)
@@ -27,8 +33,12 @@ CONSTANTS Families,   \* records [name, dim, constraints (set of positions), per
           WidthOpts,   \* "none" | "given" | "zero" (a sharp candidate: width exactly 0 is a width, not "unset")
           LevelOpts    \* "fixed" | "auto" | "adjust" | "autoadjust"
 
-VARIABLES req, pc, cls, width, free, lower, upper, nextra, cost, wrapped
-vars == <<req, pc, cls, width, free, lower, upper, nextra, cost, wrapped>>
+CONSTANTS W2s        \* values of floor(2 w) of the width the fit is started with (sets the size of the region)
+
+\* env: facts about the image/candidate pair the protocol branches on.  support: the dilated binary image of the
+\* candidate contains a support point; flat: the intensity range vmax - vmin used for the fit is zero; w2 = floor(2 w)
+VARIABLES req, env, pc, cls, width, iters, free, lower, upper, nextra, xlo, xhi, cost, wrapped
+vars == <<req, env, pc, cls, width, iters, free, lower, upper, nextra, xlo, xhi, cost, wrapped>>
 
 Perturbed(c) == c \in {"PerturbedDroplet2D", "PerturbedDroplet3D", "PerturbedDroplet3DAxisSym"}
 ClassDim(c) == IF c = "PerturbedDroplet2D" THEN {2} ELSE IF Perturbed(c) THEN {3} ELSE {1, 2, 3}
@@ -42,20 +52,35 @@ Requests == {[fam |-> f, cand |-> c, modes |-> m, width |-> w, levels |-> l] :
 Valid(r) == Compatible(r.fam, r.cand, r.modes) /\ (r.cand = "SphericalDroplet" => r.width = "none")
 
 NParams(r) == r.fam.dim + 2 + r.modes
+Adjust(r) == r.levels \in {"adjust", "autoadjust"}
+\* admissible environments: a sharp candidate (width zero) starts with w2 = 0; a homogeneous region with supplied
+\* levels would need vmin = vmax to be supplied, which is modelled as well (the fit is then a no-op)
+Envs(r) == {e \in [support : BOOLEAN, flat : BOOLEAN, w2 : W2s] :
+              /\ (r.width = "zero" => e.w2 = 0)
+              /\ (~e.support => ~e.flat)}          \* without a region there are no levels to speak of
 Init == /\ req \in {r \in Requests : Valid(r)}
-        /\ pc = "promote" /\ cls = req.cand /\ width = req.width /\ free = {} /\ lower = <<>> /\ upper = <<>>
-        /\ nextra = 0 /\ cost = "initial" /\ wrapped = {}
+        /\ env \in Envs(req)
+        /\ pc = "promote" /\ cls = req.cand /\ width = req.width /\ iters = 0 /\ free = {} /\ lower = <<>> /\ upper = <<>>
+        /\ nextra = 0 /\ xlo = <<>> /\ xhi = <<>> /\ cost = "initial" /\ wrapped = {}
 
 Promote == /\ pc = "promote"
            /\ cls' = IF cls = "SphericalDroplet" THEN "DiffuseDroplet" ELSE cls
-           /\ pc' = "width" /\ UNCHANGED <<req, width, free, lower, upper, nextra, cost, wrapped>>
+           /\ pc' = "width" /\ UNCHANGED <<req, env, width, iters, free, lower, upper, nextra, xlo, xhi, cost, wrapped>>
 DefaultWidth == /\ pc = "width"
                 /\ width' = IF width = "none" THEN "typical" ELSE width
-                /\ pc' = "region" /\ UNCHANGED <<req, cls, free, lower, upper, nextra, cost, wrapped>>
-Region == /\ pc = "region" /\ pc' = "free" /\ UNCHANGED <<req, cls, width, free, lower, upper, nextra, cost, wrapped>>
+                /\ pc' = "region" /\ UNCHANGED <<req, env, cls, iters, free, lower, upper, nextra, xlo, xhi, cost, wrapped>>
+\* the fit region: binary image of the candidate dilated 1 + floor(2 w) times
+Region == /\ pc = "region" /\ env.support
+          /\ iters' = 1 + env.w2
+          /\ pc' = "free" /\ UNCHANGED <<req, env, cls, width, free, lower, upper, nextra, xlo, xhi, cost, wrapped>>
+\* no support point in the region: nothing is fitted, the (promoted) candidate goes straight to Wrap
+NoSupport == /\ pc = "region" /\ ~env.support
+             /\ iters' = 1 + env.w2
+             /\ cost' = "not-larger"           \* unchanged, hence not larger
+             /\ pc' = "wrap" /\ UNCHANGED <<req, env, cls, width, free, lower, upper, nextra, xlo, xhi, wrapped>>
 FreeMask == /\ pc = "free"
             /\ free' = (1..NParams(req)) \ req.fam.constraints
-            /\ pc' = "bounds" /\ UNCHANGED <<req, cls, width, lower, upper, nextra, cost, wrapped>>
+            /\ pc' = "bounds" /\ UNCHANGED <<req, env, cls, width, iters, lower, upper, nextra, xlo, xhi, cost, wrapped>>
 \* bounds per parameter: "ninf" / "zero" / "m1"  and  "inf" / "one"
 Lo(i) == IF i = req.fam.dim + 1 \/ i = req.fam.dim + 2 THEN "zero" ELSE IF i > req.fam.dim + 2 THEN "m1" ELSE "ninf"
 Hi(i) == IF i > req.fam.dim + 2 THEN "one" ELSE "inf"
@@ -65,25 +90,40 @@ Bounds == /\ pc = "bounds"
           /\ LET idx == Ordered(free) IN
              /\ lower' = [k \in 1..Len(idx) |-> Lo(idx[k])]
              /\ upper' = [k \in 1..Len(idx) |-> Hi(idx[k])]
-          /\ nextra' = IF req.levels \in {"adjust", "autoadjust"} THEN 2 ELSE 0
-          /\ pc' = "solve" /\ UNCHANGED <<req, cls, width, free, cost, wrapped>>
+          /\ pc' = "levels" /\ UNCHANGED <<req, env, cls, width, iters, free, nextra, xlo, xhi, cost, wrapped>>
+\* intensity levels: fitted only when requested AND the range is not zero
+Levels == /\ pc = "levels"
+          /\ IF Adjust(req) /\ ~env.flat
+             THEN nextra' = 2 /\ xlo' = <<"vmin-vrng", "zero">> /\ xhi' = <<"vmax", "3vrng">>
+             ELSE nextra' = 0 /\ xlo' = <<>> /\ xhi' = <<>>
+          /\ pc' = "solve" /\ UNCHANGED <<req, env, cls, width, iters, free, lower, upper, cost, wrapped>>
 \* the black box: whatever it does, the result is inside the bounds and not worse than the start
 Solve == /\ pc = "solve" /\ cost' = "not-larger" /\ pc' = "wrap"
-         /\ UNCHANGED <<req, cls, width, free, lower, upper, nextra, wrapped>>
+         /\ UNCHANGED <<req, env, cls, width, iters, free, lower, upper, nextra, xlo, xhi, wrapped>>
 Wrap == /\ pc = "wrap"
         /\ wrapped' = req.fam.periodic         \* only coordinates along periodic axes may change
-        /\ pc' = "done" /\ UNCHANGED <<req, cls, width, free, lower, upper, nextra, cost>>
-Next == Promote \/ DefaultWidth \/ Region \/ FreeMask \/ Bounds \/ Solve \/ Wrap
+        /\ pc' = "done" /\ UNCHANGED <<req, env, cls, width, iters, free, lower, upper, nextra, xlo, xhi, cost>>
+Next == Promote \/ DefaultWidth \/ Region \/ NoSupport \/ FreeMask \/ Bounds \/ Levels \/ Solve \/ Wrap
 Spec == Init /\ [][Next]_vars /\ WF_vars(Next)
 
 -----------------------------------------------------------------------------
 (* C04 *)
 Done == pc = "done"
 ClassKept == Done => (cls = (IF req.cand = "SphericalDroplet" THEN "DiffuseDroplet" ELSE req.cand))
-ConstraintsFrozen == Done => free \cap req.fam.constraints = {} /\ free \cup req.fam.constraints = 1..NParams(req)
-BoundsLayout == Done => /\ Len(lower) = Cardinality(free) /\ Len(upper) = Cardinality(free)
+\* whenever something is fitted, exactly the unconstrained parameters are free
+ConstraintsFrozen == (Done /\ env.support) =>
+                        free \cap req.fam.constraints = {} /\ free \cup req.fam.constraints = 1..NParams(req)
+NothingFreeWithoutSupport == (Done /\ ~env.support) => free = {} /\ nextra = 0
+BoundsLayout == (Done /\ env.support) =>
+                        /\ Len(lower) = Cardinality(free) /\ Len(upper) = Cardinality(free)
                         /\ \A k \in 1..Len(lower) : LET i == Ordered(free)[k] IN lower[k] = Lo(i) /\ upper[k] = Hi(i)
-RadiusWidthBounded == Done => /\ (req.fam.dim + 1) \in free /\ (req.fam.dim + 2) \in free
+RadiusWidthBounded == (Done /\ env.support) => /\ (req.fam.dim + 1) \in free /\ (req.fam.dim + 2) \in free
+\* intensities are fitted exactly when asked for and possible; the range is never allowed to become negative
+LevelsLayout == Done => /\ nextra = Len(xlo) /\ nextra = Len(xhi)
+                        /\ (nextra = 2) <=> (env.support /\ Adjust(req) /\ ~env.flat)
+                        /\ nextra \in {0, 2} /\ (nextra = 2 => xlo[2] = "zero")
+RegionRule == Done => iters = 1 + env.w2 /\ iters >= 1
+WidthSet == Done => width # "none"        \* the result always has an interface width
 NeverWorse == Done => cost = "not-larger"
 \* wrapping never touches a frozen coordinate
 WrapRespectsSymmetry == Done => \A a \in wrapped : a \notin req.fam.constraints \/ req.fam.name \in {"cylindrical-periodic"}
